@@ -133,6 +133,8 @@ impl<M: Math, A: MassMatrixAdaptStrategy<M>> AdaptStrategy<M> for GlobalStrategy
         #[cfg(nuts_rs_verif)]
         macro_rules! verif_adapt {
             ($branch:expr, $switched:expr, $changed:expr, $research:expr, $fed:expr) => {
+                let verif_tfp =
+                    crate::verif::transformation_fingerprint(math, hamiltonian.transformation());
                 crate::verif::emit("adapt", || {
                     crate::verif::json!({"ev": "adapt", "kind": "global", "draw": draw,
                         "branch": $branch, "switched": $switched, "changed": $changed,
@@ -143,7 +145,7 @@ impl<M: Math, A: MassMatrixAdaptStrategy<M>> AdaptStrategy<M> for GlobalStrategy
                         "has_initial": self.has_initial_mass_matrix,
                         "tid": crate::transform::Transformation::transformation_id(
                             hamiltonian.transformation(), math),
-                        "tfp": crate::verif::transformation_fingerprint(math, hamiltonian.transformation()),
+                        "tfp": verif_tfp,
                         "tuning": self.tuning, "num_tune": self.num_tune,
                         "early_end": self.early_end, "final_window": self.final_step_size_window,
                         "early_freq": self.options.early_mass_matrix_switch_freq,
